@@ -31,6 +31,8 @@ class C19(Prop):
         res = []
         for h in obs["histories"]:
             res += A.oracle_c19(h)
+            # "posted under that ID by the authorised agent": what an agent without (or no longer with) the backend posts or fetches is refused
+            res += [v for v in A.oracle_c17(h) if v[0].startswith("unauthorised-agent-call-accepted") or v[0].startswith("unauthorised-agent-call-wrote")]
         res += A.oracle_timeout(obs.get("timeout"))
         res += A.oracle_conc(obs.get("conc"))
         return res
